@@ -82,13 +82,18 @@ func init() {
 				}
 				for _, a := range uniq {
 					for _, b := range uniq {
+						if rc.id == "C11" && strings.Count(a, "{[")+strings.Count(b, "{[") > 7 {
+							// two 4-character free runs: more than 50000 reference paths; the
+							// 4 x 3 and 3 x 4 pairs are kept (stated in the bounds)
+							continue
+						}
 						out = append(out, &Config{ID: fmt.Sprintf("%s/pair/%s|%s", rc.id, a, b), Pkg: zzhPkg, Func: rc.fn, Args: []ArgSpec{ArgStr(rc.eco), ArgTmpl(a), ArgTmpl(b)}})
 					}
 				}
 				return out
 			},
 			Bounds: func(tier string) string {
-				return fmt.Sprintf("all ordered pairs over %d (quick) templates of the %s grammar listed in engine/checks_ref.go (thorough adds longer raw runs); digit runs 1-2 characters plus 20/21-digit runs where big numbers matter; ASCII only", len(rc.extra("quick")), rc.eco)
+				return fmt.Sprintf("all ordered pairs over %d (quick) templates of the %s grammar listed in engine/checks_ref.go (thorough adds longer raw runs; pairs of two 4-character free runs are outside the bound); digit runs 1-2 characters plus 20/21-digit runs where big numbers matter; ASCII only", len(rc.extra("quick")), rc.eco)
 			},
 			Assume: []string{"reference model: " + rc.oracle},
 		})
